@@ -1075,7 +1075,9 @@ class Gen(object):
         if d is None or not self.room(len(self.U.subtree(d))):
             return None
         op = {"op": "restart", "d": self.ref(d), "backend": self.pick(list(self.p.backends)),
-              "via": self.pick(["file", "file", "string"])}
+              "via": self.pick(["file", "file", "string", "writer"])}
+        if op["via"] == "writer":
+            op["backend"] = "xml"       # XMLWriter is the one writer class applications keep
         if any(kind_of(o) == "sec" and o.is_merged and o.link is not None
                for o in self.U.subtree(d)) and self.chance(0.6):
             op["clean"] = True      # the way a document with resolved links is saved: clean first
